@@ -11,7 +11,7 @@
     pvars PERM OBJ (CON ..)              Problem.variables  (PERM ∈ id | rev | rot)
     bounds PERM OBJ (CON ..) ((oid lb ub) ..)   Problem.get_bounds
 
-  Operand literals: (int q) (float q) (npf q) (npi q) (a0 q) (a1 (q ..)) (a2 ((q ..) ..)) (aN k)
+  Operand literals: (int q) (float q) (npf q) (npi q) (a0 q) (a1 (q ..)) (a2 ((q ..) ..)) (aN ndim len)
     (l1 (q ..)) (l2 ((q ..) ..)) (e EXPR) (vv ..) (ve (E ..)) (mvp ((q ..) ..) VEC) (epow VVAR q)
     (eun VVAR op) (mv "name" oid ((VAR ..) ..)) (me ((E ..) ..))
 -/
@@ -41,7 +41,8 @@ def toOperand : Sexp → Option (Operand × Bool)
   | .list [.atom "a0", .atom q] => (parseRat q).map fun r => (.arr0 r, false)
   | .list [.atom "a1", .list xs] => (Sexp.toRats xs).map fun r => (.arr1 r, false)
   | .list [.atom "a2", .list rows] => (toRatRows rows).map fun r => (.arr2 r, false)
-  | .list [.atom "aN", .atom k] => k.toNat?.map fun n => (.arrN n, false)
+  | .list [.atom "aN", .atom k, .atom len] => do
+    let n ← k.toNat?; let len ← len.toNat?; pure (.arrN n len, false)
   | .list [.atom "l1", .list xs] => (Sexp.toRats xs).map fun r => (.list1 r, false)
   | .list [.atom "l2", .list rows] => (toRatRows rows).map fun r => (.list2 r, false)
   | .list [.atom "e", e] => e.toExpr.map fun x => (.scalar x, false)
@@ -95,7 +96,7 @@ def showOperand : Operand → String
   | .arr0 q => "(a0 " ++ showRat q ++ ")"
   | .arr1 xs => "(a1 " ++ showRats xs ++ ")"
   | .arr2 q => "(a2 " ++ showRows q ++ ")"
-  | .arrN k => "(aN " ++ toString k ++ ")"
+  | .arrN k n => "(aN " ++ toString k ++ " " ++ toString n ++ ")"
   | .list1 xs => "(l1 " ++ showRats xs ++ ")"
   | .list2 q => "(l2 " ++ showRows q ++ ")"
   | .scalar e => "(e " ++ showExpr e ++ ")"
